@@ -39,6 +39,13 @@ def gen_case(rng, i, tier):
             main += "{{/mk}}"
         if main.endswith("}}") and "{{#> p0 " in main[main.rfind("{{#"):]:
             main += "{{/p0}}"
+    pbfail = rng.chance(0.3)
+    if pbfail:
+        # a failing tag written in main but rendered from inside another partial (a partial-block body, an inline partial):
+        # the error names the template the tag is WRITTEN in – for every way of registering that template
+        bad = rng.pick(["{{nosuchA 1}}", "{{lookup}}", "{{> nosuchpartial}}", "{{*nosuchdeco}}"])
+        main += rng.pick(["\n{{#> pbw}}x\n {{BAD}}{{/pbw}}", "{{#*inline \"il\"}}i {{BAD}}{{/inline}}\n\n  {{> pbi}}",
+                          "{{#> nosuchp}}fb{{BAD}}{{/nosuchp}}"]).replace("{{BAD}}", bad)
     devfile = rng.chance(0.25)
     if devfile:
         # dev mode: the partial comes from a file that changes (or disappears) after registration – every entry point
@@ -47,11 +54,15 @@ def gen_case(rng, i, tier):
         ops = [{"op": "set_dev", "reg": 0, "v": True},
                {"op": "write_file", "file": "f1", "content": p0_old},
                {"op": "reg_file", "reg": 0, "name": "p0", "file": "f1"},
+               {"op": "reg_string", "reg": 0, "name": "pbw", "src": "<\n{{> @partial-block}}>"},
+               {"op": "reg_string", "reg": 0, "name": "pbi", "src": "({{> il}})"},
                {"op": "reg_string", "reg": 0, "name": "main", "src": main},
                {"op": "reg_template", "reg": 0, "name": "pre", "src": main, "tname": "main"},
                ({"op": "write_file", "file": "f1", "content": p0} if rng.chance(0.8) else {"op": "delete_file", "file": "f1"})]
     else:
         ops = [{"op": "reg_string", "reg": 0, "name": "p0", "src": p0},
+               {"op": "reg_string", "reg": 0, "name": "pbw", "src": "<\n{{> @partial-block}}>"},
+               {"op": "reg_string", "reg": 0, "name": "pbi", "src": "({{> il}})"},
                {"op": "reg_string", "reg": 0, "name": "main", "src": main},
                {"op": "reg_template", "reg": 0, "name": "pre", "src": main, "tname": "main"}]
     d = enc(data)
@@ -104,6 +115,7 @@ def oracle(case, meta, impl):
     ops = case["ops"]
     v = []
     ref = None
+    named_name = None
     for op, r in zip(ops, rs):
         if op["op"] not in ("render", "render_mt"):
             continue
@@ -116,6 +128,13 @@ def oracle(case, meta, impl):
         if op.get("name") == "p0":
             continue
         c = canon(r)
+        if op.get("api") in NAMED and op.get("name") in ("main", "pre") and r.get("r") == "rerr" and r.get("reason") not in ("TemplateNotFound",):
+            # the template an error names: the same for the string-registered and the precompiled registration
+            nm = r.get("name")
+            if named_name is None:
+                named_name = (op.get("name"), nm)
+            elif nm != named_name[1]:
+                v.append("entry %s(%s) names template %r in its error, %s named %r" % (op.get("api"), op.get("name"), nm, named_name[0], named_name[1]))
         if ref is None:
             ref = (op.get("api"), c)
         elif c != ref[1]:
